@@ -340,6 +340,46 @@ pub fn run(ctx: &Ctx) -> PropResult {
             }
         }
     }));
+    if full {
+        // EXHAUSTIVE: every (year, month, day) of the property's quantifier — year −5 879 612..=5 879 612,
+        // month 0..=13, day 0..=32 (5.4e9 triples). Lean loop; any disagreement is re-judged by the
+        // full verdict function for reporting.
+        let y0: i64 = -5_879_612;
+        let ny: u64 = 2 * 5_879_612 + 1;
+        wls.push(Workload::chunks("triples_ALL_years_x_months_x_days", ny, 512, move |rec, r| {
+            let mut valid = 0u64;
+            let mut invalid = 0u64;
+            for k in r.clone() {
+                let y = y0 + k as i64;
+                for m in 0..=13u32 {
+                    for d in 0..=32u32 {
+                        let exp = expect_triple(y, m, d);
+                        let got = trap(|| Date::from_ymd(y as i32, m, d).map(|x| x.timestamp()));
+                        let ok = match (&got, exp) {
+                            (Ok(Ok(ts)), Some(n)) => *ts == ts_of_day(n),
+                            (Ok(Err(AstrolabeError::OutOfRange(_))), None) => true,
+                            _ => false,
+                        };
+                        if ok {
+                            if exp.is_some() {
+                                valid += 1;
+                            } else {
+                                invalid += 1;
+                            }
+                        } else {
+                            rec.cur_idx = k;
+                            judge_triple(rec, y, m, d, true);
+                        }
+                    }
+                }
+            }
+            rec.evals(valid + invalid);
+            rec.api_n("Date::from_ymd", valid + invalid);
+            rec.nontrivial_counted(invalid + (r.end - r.start) * 12 * 5); // invalid triples + day 1 and days >= 28 of each month
+            *rec.bins.entry("exhaustive-triples/valid").or_insert(0) += valid;
+            *rec.bins.entry("exhaustive-triples/refused").or_insert(0) += invalid;
+        }));
+    }
     wls.push(Workload::cases("triples_random", ctx.count(120_000, 1_000_000), move |rec, _idx, rng| {
         let y = if rng.chance(1, 4) { rng.range_i64(i32::MIN as i64, i32::MAX as i64) } else { rng.range_i64(-5_879_612, 5_879_612) };
         let m = if rng.chance(1, 16) { rng.next() as u32 } else { rng.below(14) as u32 };
@@ -350,7 +390,8 @@ pub fn run(ctx: &Ctx) -> PropResult {
     let mut meta = PropMeta::default();
     meta.exhaustive = full;
     meta.rule = format!(
-        "days: {} ; each day n is reached through Date::from_timestamp, read with as_ymd/timestamp, rebuilt with from_ymd and compared with an independent i64 calendar model plus a direct successor check across chunk seams. triples: {} years x month 0..=13 x day 0..=32 (year grid thinned {}x away from the range ends / era boundary) + random triples over the whole i32 year domain, judged accept/refuse/error-kind against the model. Non-trivial = a day that is the first/last of its month or Feb 29; a triple that is invalid, out of range, or has day 1 or >= 28. Distinctness by hash of the concrete input (days_all: each day visited once, counted).",
+        "{}days: {} ; each day n is reached through Date::from_timestamp, read with as_ymd/timestamp, rebuilt with from_ymd and compared with an independent i64 calendar model plus a direct successor check across chunk seams. triples: {} years x month 0..=13 x day 0..=32 (year grid thinned {}x away from the range ends / era boundary) + random triples over the whole i32 year domain, judged accept/refuse/error-kind against the model. Non-trivial = a day that is the first/last of its month or Feb 29; a triple that is invalid, out of range, or has day 1 or >= 28. Distinctness by hash of the concrete input (days_all: each day visited once, counted).",
+        if full { "triples: ALL 5.4e9 (year −5879612..=5879612) x (month 0..=13) x (day 0..=32) through Date::from_ymd (exhaustive over the property's quantifier). " } else { "" },
         if full { "ALL 2^32 day numbers".to_string() } else { "3 Gregorian cycles either side of day 0, 1600-2400 AD, 2 cycles at each range end, and a strided pass over the whole range".to_string() },
         nyears,
         thin
@@ -361,6 +402,10 @@ pub fn run(ctx: &Ctx) -> PropResult {
         "triple/valid", "triple/year0", "triple/month-out", "triple/day-not-in-month", "triple/below-range", "triple/above-range",
         "triple/valid-partial-end-year",
     ];
+    if full {
+        meta.required_bins.push("exhaustive-triples/valid");
+        meta.required_bins.push("exhaustive-triples/refused");
+    }
     meta.assumptions = vec![
         "the harness calendar model (Hinnant civil-from-days on astronomical years, self-checked at start-up against a definition-level day walk over 6 Gregorian cycles) is the reference".into(),
     ];
